@@ -148,7 +148,7 @@ class _MC:
 
 NAV = ["getitem_ds", "getitem_grp", "get", "values", "items", "visititems", "parent_of_child", "parent", "file",
        "restrict_noop", "query", "create_group", "require_group", "create_dataset", "require_dataset", "nested_path",
-       "iter_then_getitem", "child_of_child", "absolute_path", "ds_direct", "ds_child_upward"]
+       "iter_then_getitem", "child_of_child", "absolute_path", "ds_direct", "ds_child_upward", "child_restricted_parent"]
 
 
 def _upward_ok(x, ro, lo, so, mc):
@@ -271,6 +271,19 @@ def nav(ro: bool, lo: bool, so: bool, r2: bool, l2: bool, s2: bool) -> bool:
                     if attr == "parent" and not (isinstance(r, MetadorNode) and superset(r, ro, lo, so)):
                         return False
             return True
+        elif prim == "child_restricted_parent":
+            # a child restricted further than the node it came from: its parent keeps the child's flags too
+            c = n["h"].restrict(read_only=r2, local_only=l2, skel_only=s2)
+            try:
+                p = c.parent
+            except (UnsupportedOperationError, ValueError):
+                return bool(lo or l2)
+            if l2:
+                return False  # c is its own local root now
+            if not isinstance(p, MetadorNode) or not superset(p, ro or r2, lo, so or s2):
+                note(("parent of a further restricted child", {k.name: v for k, v in p.acl.items()}))
+                return False
+            derived.append(p)
         elif prim == "ds_child_upward":
             derived += [n["d"], n["h"]["e"], n.get("d")]
     except (UnsupportedOperationError, ValueError):
